@@ -28,7 +28,7 @@ def main(pid, x):
             if os.path.isfile(s): shutil.copy(s, ddir)
         def build_demo():
             if os.path.exists(os.path.join(ddir, 'demo.sh')):
-                return sh('WT=%s sh demo.sh' % wt, cwd=ddir)
+                return sh('WT=%s sh demo.sh %s' % (wt, wt), cwd=ddir, timeout=900)
             rc, o = sh('cc -g -fsanitize=address,undefined -I%s/src -I%s/_build -I%s/_build/src demo.c $(find %s/src -name "*.c") -lm -lpthread -o demo 2>&1 | tail -5' % (wt, wt, wt, wt), cwd=ddir)
             if not os.path.exists(os.path.join(ddir, 'demo')): return 99, 'demo did not build: ' + o
             return sh('./demo', cwd=ddir, timeout=600)
